@@ -45,6 +45,9 @@ var dirs3 = func() []model3d.Coord3D {
 			}
 		}
 	}
+	// flat rays whose zero components are IEEE negative zeros (what Scale(-1) or a mirror produces)
+	nz := math.Copysign(0, -1)
+	out = append(out, model3d.XYZ(1, 0, nz), model3d.XYZ(-1, nz, nz), model3d.XYZ(nz, -1, nz), model3d.XYZ(1, 1, nz), model3d.XYZ(nz, nz, 1), model3d.XYZ(nz, 1, -1), model3d.XYZ(-1, nz, 1))
 	out = append(out, model3d.XYZ(0.3, 1, 0.2), model3d.XYZ(-math.Sqrt2, 0.1, math.Pi/3), model3d.XYZ(0.01, -0.7, 0.71), model3d.XYZ(1, 1e-3, -1e-3), model3d.XYZ(-0.5, -0.5, 0.71), model3d.XYZ(0.9, -0.1, 0.43))
 	return out
 }()
@@ -352,9 +355,15 @@ func check2D(r *ev.Run) {
 		for i := 0; i < 6; i++ {
 			for j := 0; j < 6; j++ {
 				o := s.Center.Add(model2d.XY(float64(i)/2.5-1+0.0137, float64(j)/2.5-1-0.0071).Scale(1.5 * s.Extent))
-				for di := 0; di < 24; di++ {
+				nz := math.Copysign(0, -1)
+				axisDirs := []model2d.Coord{{X: 1, Y: 0}, {X: -1, Y: nz}, {X: 0, Y: 1}, {X: nz, Y: -1}, {X: 1, Y: nz}, {X: nz, Y: 1}, {X: 0, Y: -1}, {X: -1, Y: 0}}
+				for di := 0; di < 24+len(axisDirs); di++ {
 					a := 2*math.Pi*float64(di)/24 + 0.013
 					d := model2d.XY(math.Cos(a), math.Sin(a)).Scale([]float64{1, 0.2, 5}[di%3])
+					if di >= 24 {
+						// axis-parallel rays, with zero components of either sign
+						d = axisDirs[di-24].Scale([]float64{1, 0.2, 5}[di%3])
+					}
 					ray := &model2d.Ray{Origin: o, Direction: d}
 					r.Eval(1)
 					var hits []model2d.RayCollision
